@@ -393,6 +393,7 @@ var (
 )
 
 func genPopulation(rng *rand.Rand, maxStreams int) (versions []*c02Stream, nIdx int) {
+	tieMode := rng.Intn(3) == 0
 	nIdx = 1 + rng.Intn(3)
 	n := 1 + rng.Intn(maxStreams)
 	for id := 0; id < n; id++ {
@@ -414,6 +415,10 @@ func genPopulation(rng *rand.Rand, maxStreams int) (versions []*c02Stream, nIdx 
 				}
 			}
 			s.FirstH = rng.Intn(40)
+			if tieMode {
+				// many streams with the same first packet time: a list of sort keys is decided by the later keys
+				s.FirstH = []int{5, 20, 38}[rng.Intn(3)]
+			}
 			nch := rng.Intn(4)
 			if os.Getenv("C02_THEN") != "" {
 				nch = rng.Intn(7) // longer conversations for sequences
